@@ -101,6 +101,7 @@ def run(ctx):
     machine.run_batch(ctx, ctx.n(60, 800), allow={'restart'}, oracle=oracle)
     name_mode_inspection_probe(ctx)
     thread_probe(ctx)
+    damaged_result_probe(ctx)
 
 
 def thread_probe(ctx):
@@ -126,6 +127,38 @@ def thread_probe(ctx):
         runs = [r for r in mod.RUNLOG if r[0] == 'w']
         if len(runs) != 1:
             ctx.fail('a task ran more than once although its value was already computed', case, {'runs': len(runs)})
+        b.cleanup_module()
+
+
+def damaged_result_probe(ctx):
+    """a stored result that cannot be loaded (truncated file, foreign bytes) is an error the user sees — the task is not quietly run a
+    second time for the same location"""
+    from tcv import gen
+    root = ctx.tmpdir() / 'damaged'
+    for k, kind in enumerate(['json', 'numpy', 'pandas', 'json'][:ctx.n(2, 4)]):
+        spec = {'classes': {'K0': {'name': 'w', 'group': '', 'params': [{'name': 'x'}], 'inputs': [], 'kind': kind, 'run_args': ['x']},
+                            'K1': {'name': 'down', 'group': '', 'params': [], 'inputs': [{'by': 'class', 'ref': 'K0'}], 'kind': 'json', 'run_args': ['w'],
+                                   'in_kinds': {'w': kind}}},
+                'files': {'main.json': {'tasks': ['K0', 'K1'], 'x': k}}, 'main': 'main.json', 'module': gen.fresh_modname()}
+        b = pl.materialize(spec, root / f't{k}', modname=spec['module'])
+        mod = b.module()
+        mod.RUNLOG.clear()
+        chain, err = pl.build(b, root / f't{k}' / 'data')
+        _ = chain.tasks['w'].value
+        f = chain.tasks['w'].data_path
+        raw = f.read_bytes()
+        f.write_bytes(raw[: max(1, len(raw) // 2)] if k % 2 == 0 else b'\x00garbage')
+        chain2, err = pl.build(b, root / f't{k}' / 'data')
+        case = {'probe': 'stored result that cannot be loaded', 'kind': kind, 'damage': 'truncated' if k % 2 == 0 else 'foreign bytes'}
+        ctx.case(case); ctx.count('damaged-result-probe')
+        outcome = 'returned'
+        try:
+            _ = mod.unwrap('json', chain2.tasks['down'].value)
+        except Exception as e:      # noqa
+            outcome = type(e).__name__
+        runs = [r for r in mod.RUNLOG if r[0] == 'w']
+        if len(runs) != 1:
+            ctx.fail('a task ran a second time for a location that holds a (damaged) result, without an error', case, {'runs': len(runs), 'outcome': outcome})
         b.cleanup_module()
 
 
